@@ -340,6 +340,52 @@ def r5(ctx):
         ctx.violation("default-root/use", ctx.where("parser::Parser::parse"), "the default root must be used exactly when the query names no root")
 
 
+FOLLOW_STAT = ("std::fs::metadata", "std::path::Path::metadata", "std::path::Path::is_dir", "std::path::Path::is_file",
+               "std::path::Path::exists", "std::fs::canonicalize", "std::path::Path::canonicalize", "std::path::Path::read_dir",
+               "std::path::Path::is_symlink")
+
+
+def r6(ctx):
+    """follow-stat discipline: in the walker a stat that follows links may be used only under the follow option or in the
+    explicit symlink branch; everything that decides about an entry in no-follow mode must look at the entry itself"""
+    n = 0
+    for fn in (VISIT_DIR, OK_TO_VISIT, LSR):
+        hir = ctx.anchor_hir(fn)
+        body = ctx.anchor_body(fn)
+        mir_calls = {}
+        for i, t in body.calls():
+            c = body.callee(t)
+            if c in FOLLOW_STAT:
+                mir_calls.setdefault(t["sp"], c)
+        for x in walk_exprs(hir):
+            if x["k"] not in ("Call", "MCall"):
+                continue
+            c = mir_calls.get(x["sp"]) if x["k"] == "MCall" else (x.get("callee") if x.get("callee") in FOLLOW_STAT else None)
+            if x["k"] == "MCall" and c is not None and short(c, 1) != x["m"]:
+                c = None
+            if c is None:
+                continue
+            n += 1
+            gs = guards_of(hir, x) or []
+            under_follow = False
+            for t in gs:
+                if t[0] == "if" and t[2] and ("current_follow_symlinks" in render(t[1]) or render(peel(t[1], methods=False)) == "file_type.is_symlink()"):
+                    under_follow = True
+                if t[0] == "match" and "current_follow_symlinks" in render(t[1]) and render_pat(t[2]) == "true":
+                    under_follow = True
+            # regexp root expansion lists candidate root directories before the walk proper
+            if fn == LSR and any(t[0] == "if" and "options.regexp" in render(t[1]) for t in gs):
+                under_follow = True
+            ctx.obligation(under_follow)
+            if not under_follow:
+                ctx.violation("follow-stat/%s/%s" % (short(fn, 1), short(c, 2)), ctx.where(fn, x),
+                              "`%s` follows symbolic links but is used outside the `symlinks` option / the explicit symlink branch: "
+                              "in no-follow mode a decision about an entry would be taken from what a link points to" % render(x)[:60])
+    ctx.covered("link-following stat calls in visit_dir / ok_to_visit_dir / list_search_results and their guards", n,
+                distinct_keys=["sites:%d" % n])
+    ctx.floor(n, 3, "link-following stat calls in the walker", VISIT_DIR)
+
+
 RULES = [
     ("C01-R1", "depth window: reporting and descent gates on the depth grid", r1),
     ("C01-R2", "no unlisted skip on the path to reporting an entry", r2),
@@ -347,6 +393,7 @@ RULES = [
     ("C01-R4", "recursive / top-level call arguments, base depth, every root visited", r4),
     ("C01-R5", "symlink gate, visited inodes, default root", r5),
     ("C18-R3", "every directory is listed at most once when links are followed [shared with C18]", lambda ctx: __import__("c18").r3(ctx)),
+    ("C01-R6", "follow-stat discipline of the walker", r6),
 ]
 
 EXPLANATION = (
